@@ -31,8 +31,10 @@ import (
 	"os"
 	"path/filepath"
 	"regexp"
+	"regexp/syntax"
 	"strconv"
 	"strings"
+	"time"
 
 	"verif/harness/internal/hutil"
 
@@ -141,7 +143,10 @@ type ruleSpec struct {
 	Line   int      `json:"line"`
 	Group  string   `json:"group"`
 	RFile  int      `json:"rfile"` // which of the rules files the call stands in
-	re     *regexp.Regexp
+	// the empty-width operators of the pattern; whether its top level begins / ends with a repetition of "anything"
+	Asserts []string `json:"asserts"`
+	AnyEnds bool     `json:"anyends"`
+	re      *regexp.Regexp
 }
 
 type report struct {
@@ -167,10 +172,14 @@ type commentObs struct {
 	K      string         `json:"k"`
 	L      int            `json:"L"`
 	File   int            `json:"file"`
+	Step   int            `json:"step"` // which run of the runner state's history (per TruncateLen)
+	Prev   int            `json:"prev"` // the file of the run just before (-1: none)
 	Off    int            `json:"off"`
 	Src    []byte         `json:"src"`  // the comment's bytes in the file
 	Text   []byte         `json:"text"` // ast.Comment.Text
 	HasCR  bool           `json:"has_cr"`
+	CutL   int            `json:"cut_l"` // rules with assertions that would match (earlier) if the search began at a later position
+	CutR   int            `json:"cut_r"` // ... if the search did not see the end of the text
 	Idx    [][]int        `json:"idx"`     // per rule: FindStringSubmatchIndex(comment.Text) or null
 	IdxSrc [][]int        `json:"idx_src"` // per rule: FindSubmatchIndex(source bytes) or null
 	MT     []matchVerdict `json:"mt"`      // regexp verdicts a Text.Matches filter may need on this comment
@@ -255,6 +264,8 @@ type ruleDef struct {
 	twoWords bool
 	// a call without Report(): the message is "suggestion: " + the Suggest template
 	noReport bool
+	// pieces of comment text the rule is about (put into contexts by inContexts)
+	cores []string
 }
 
 func eq(v, lit string) *flt       { return &flt{Op: "eq", Var: v, Lit: lit} }
@@ -349,6 +360,129 @@ var fixedAltRules = []ruleDef{
 var altFixed = []string{
 	"// K0b~hum K0a~lo", "// K0b~w9", "/* K2a~x K2b~lo */", "// K2b~lo K2a~", "// K4a~hum K4b~lo", "// K4b~hum K4a~w9", "// K4a~w9",
 	"// K1b~hum K1a~w9", "/* K3c~x K3a~lo */", "// K1c~lo", "// K8b~lo", "/* K8c~hum K8b~x */", "// K8c~w9", "/* K7b~lo\nhum K7a~lo hum */", "/* K7d~hum K7c~x\nxx */",
+}
+
+// Regexps with ASSERTIONS (^ $ \A \z \b \B, (?m)): whether and where such a regexp matches depends on what stands to the
+// left and to the right of the candidate position -- the regexp has to see the WHOLE comment text. `cores` are pieces of
+// text the rule is about; every core is put into a set of contexts (alone, behind other text, in front of other text, in a
+// block comment, on a line of its own, twice), so that the literal the regexp starts with also stands at positions where the
+// assertion does NOT hold (a search that started there, or stopped early, would accept).
+var anchorRules = []ruleDef{
+	{pats: []string{`^// AN1(?P<rest>.*)$`}, msg: "AN1 rest=[$rest] $$", sugg: "// DONE$rest", cores: []string{"// AN1 later", "// AN1"}},
+	{pats: []string{`^/\* AN2 (?P<x>\w+) \*/$`}, msg: "AN2 $x", at: "x", cores: []string{"/* AN2 lo */"}},
+	{pats: []string{`\A// AN3:(?P<r>[a-z ]*)\z`}, filter: ne("r", ""), msg: "AN3 [$r]", sugg: "<$r>", cores: []string{"// AN3:go on", "// AN3:"}},
+	{pats: []string{`(?m)^AN4:(?P<v>\w+)$`}, msg: "AN4 $v in $$", at: "v", sugg: "$v", cores: []string{"AN4:lo", "AN4:w9 x"}},
+	{pats: []string{`\bAN5(?P<n>\w*)\b`}, msg: "AN5 [$n] $$", sugg: "$n", cores: []string{"AN5", "AN5lo", "xAN5 AN5y"}},
+	{pats: []string{`\BAN6(?P<t>\w*)`}, msg: "AN6 [$t]", at: "t", cores: []string{"AN6a", "AN6a zAN6b"}},
+	{pats: []string{`AN7(?P<t>\w*)$`}, msg: "AN7 [$t] $$", sugg: "<$t>", cores: []string{"AN7a", "AN7a AN7b"}},
+	{pats: []string{`^//AN8$`}, msg: "AN8 $$", sugg: "//AN8!", cores: []string{"//AN8"}},
+	{pats: []string{`(?s)^/\*.*AN9.*\*/$`}, msg: "AN9 $$", cores: []string{"/* AN9 */", "AN9"}},
+	{pats: []string{`^(?:// |/\* )AN10 (?P<w>\w+)`}, filter: ne("w", "x"), msg: "AN10 $w", at: "w", sugg: "W", cores: []string{"// AN10 lo", "/* AN10 hum */"}},
+	{pats: []string{`(?m)AN11 (?P<w>\w+)$`}, msg: "AN11 $w|$$", cores: []string{"AN11 lo", "AN11 lo hum"}},
+	{pats: []string{`\bAN12\b`}, msg: "AN12 $$", sugg: "an12", cores: []string{"AN12", "xAN12 AN12y AN12", "AN12y"}},
+	{pats: []string{`^// AN13 (?P<a>\w+)(?: (?P<b>\w+))?$`}, filter: ne("a", "b"), msg: "AN13 a=$a b=[$b]", sugg: "$b$a", cores: []string{"// AN13 lo", "// AN13 lo hum", "// AN13 lo hum x"}},
+	{pats: []string{`AN14-(?P<k>\w+)`}, msg: "AN14 $k", at: "k", cores: []string{"AN14-lo", "AN14- AN14-x"}},
+	{pats: []string{`^// AN15 (?P<w>lo)$`, `(?m)^AN15 (?P<w>\w+)$`, `\bAN15\b(?P<w>)`}, filter: ne("w", "x"), msg: "AN15 [$w] $$", cores: []string{"// AN15 lo", "AN15 hum", "AN15"}},
+}
+
+// Regexps whose ends match "anything": a report covers the WHOLE leftmost match -- greedy and lazy `.*` / `.+` / `\s*` at
+// either end, under (?s) / (?U) / (?i), alternatives of which the first-written (not the longest) wins. Most of them have no
+// capture group at all (the fast path of the runner); three have a group (named, unnamed, non-capturing).
+var spanRules = []ruleDef{
+	{pats: []string{`//\s*GL1.*`}, msg: "GL1 $$", sugg: "// gone", cores: []string{"GL1", "GL1: drop this before the release"}},
+	{pats: []string{`.*GL2`}, msg: "GL2 [$$]", sugg: "<$$>", cores: []string{"GL2", "pre GL2 mid GL2 post"}},
+	{pats: []string{`(?s).*\bGL3\b.*`}, msg: "GL3 $$", sugg: "", cores: []string{"GL3", "pre GL3 post", "up\npre GL3\ndn"}},
+	{pats: []string{`.+GL4.+`}, msg: "GL4 $$", sugg: "$$$$", cores: []string{"GL4", "pre GL4 post"}},
+	{pats: []string{`.*?GL5.*?`}, msg: "GL5 [$$]", sugg: "X", cores: []string{"GL5", "pre GL5 post"}},
+	{pats: []string{`\s*GL6\s*`}, msg: "GL6 [$$]", sugg: "_", cores: []string{"GL6", "a  GL6  b"}},
+	{pats: []string{`GL7a|GL7ab`}, msg: "GL7 $$", sugg: "<$$>", cores: []string{"GL7ab", "x GL7abc"}},
+	{pats: []string{`GL8x*?`}, msg: "GL8 $$", sugg: "<$$>", cores: []string{"GL8xxx"}},
+	{pats: []string{`(?U)GL9.*y`}, msg: "GL9 $$", sugg: "<$$>", cores: []string{"GL9 a y b y"}},
+	{pats: []string{`(?i)gl10.*END`}, msg: "GL10 $$", cores: []string{"Gl10 x End y END z"}},
+	{pats: []string{`[^*/]*GL11[^*/]*`}, msg: "GL11 [$$]", sugg: "-", cores: []string{"GL11", "pre GL11 post"}},
+	{pats: []string{`.*(?P<g>GL12).*`}, msg: "GL12 g=$g $$", sugg: "<$g>", cores: []string{"GL12", "pre GL12 post"}},
+	{pats: []string{`(GL13).*`}, msg: "GL13 $$", sugg: "<$$>", cores: []string{"GL13", "pre GL13 post"}},
+	{pats: []string{`(?s)/\*.*GL14.*`}, msg: "GL14 $$", cores: []string{"GL14", "pre GL14\npost"}},
+	{pats: []string{`(?:.*GL15.*)`}, msg: "GL15 $$", sugg: "<$$>", cores: []string{"pre GL15 post"}},
+	{pats: []string{`.*GL16.*`, `GL16b`}, msg: "GL16 $$", sugg: "<$$>", cores: []string{"pre GL16b post"}},
+}
+
+// inContexts: the comments a core is put into (only those that ARE one comment: a line comment has no line break, a block
+// comment ends at its first `*/`).
+func inContexts(core string) []string {
+	cands := []string{core, "// see " + core, "//" + core, "//w" + core, core + "w", core + " tail", "/* " + core + " */", "/*" + core + "*/",
+		"/* up\n" + core + "\ndn */", core + " " + core, "/* x\n" + core + " */", "// " + core, "/*\n" + core + "*/"}
+	var out []string
+	for _, s := range cands {
+		switch {
+		case strings.HasPrefix(s, "//"):
+			if !strings.Contains(s, "\n") {
+				out = append(out, s)
+			}
+		case strings.HasPrefix(s, "/*"):
+			if len(s) >= 4 && strings.Index(s[2:], "*/") == len(s)-4 {
+				out = append(out, s)
+			}
+		}
+	}
+	return out
+}
+
+// assertionsOf lists the empty-width operators of a pattern; anyEnds tells whether its top level begins or ends with a
+// repetition of "any character" / white space (a piece that never decides WHETHER a comment matches, only how far).
+func assertionsOf(pat string) (ops []string, anyEnds bool) {
+	re, err := syntax.Parse(pat, syntax.Perl)
+	if err != nil {
+		return nil, false
+	}
+	seen := map[string]bool{}
+	var walk func(*syntax.Regexp)
+	walk = func(r *syntax.Regexp) {
+		switch r.Op {
+		case syntax.OpBeginLine, syntax.OpEndLine, syntax.OpBeginText, syntax.OpEndText, syntax.OpWordBoundary, syntax.OpNoWordBoundary:
+			if !seen[r.Op.String()] {
+				seen[r.Op.String()] = true
+				ops = append(ops, r.Op.String())
+			}
+		}
+		for _, s := range r.Sub {
+			walk(s)
+		}
+	}
+	walk(re)
+	top := re
+	for top.Op == syntax.OpCapture && len(top.Sub) == 1 {
+		top = top.Sub[0]
+	}
+	loose := func(r *syntax.Regexp) bool {
+		switch r.Op {
+		case syntax.OpStar, syntax.OpPlus, syntax.OpQuest, syntax.OpRepeat:
+			switch r.Sub[0].Op {
+			case syntax.OpAnyChar, syntax.OpAnyCharNotNL, syntax.OpCharClass:
+				return true
+			}
+		}
+		return false
+	}
+	if top.Op == syntax.OpConcat && len(top.Sub) > 1 {
+		anyEnds = loose(top.Sub[0]) || loose(top.Sub[len(top.Sub)-1])
+	}
+	return ops, anyEnds
+}
+
+// sameLen: another text of the same byte length (the words a rule binds, filters on and interpolates are exchanged for others
+// of the same length): a rewritten file whose offsets and size all coincide with the previous version's.
+var sameLenWord = regexp.MustCompile(`[A-Za-z0-9]+|é`)
+var sameLenMap = map[string]string{"a": "q", "q": "a", "bb": "zz", "zz": "bb", "lo": "w9", "w9": "lo", "hum": "hxm", "foo": "bar", "bar": "foo", "one": "two", "two": "one",
+	"x": "y", "y": "x", "xx": "lo", "é": "bb", "pre": "erp", "post": "tsop", "later": "retal", "mid": "dim", "1": "2", "v": "k", "k": "v", "hi": "ho"}
+
+func sameLen(s string) string {
+	return sameLenWord.ReplaceAllStringFunc(s, func(w string) string {
+		if r, ok := sameLenMap[w]; ok {
+			return r
+		}
+		return w
+	})
 }
 
 var altWords = []string{"lo", "hum", "x", "xx", "w9", "é", ""}
@@ -552,6 +686,9 @@ type cm struct {
 	src  string
 }
 
+// inMemoryFile: the target that is never written to disk
+const inMemoryFile = 6
+
 func main() {
 	seed := flag.Int64("seed", 1, "PRNG seed")
 	nrand := flag.Int("rand", 6, "random extra comment rules")
@@ -567,6 +704,15 @@ func main() {
 	fams := []string{"fam1", "fam2"}
 	defs := append([]ruleDef{}, fixedRules...)
 	defs = append(defs, fixedAltRules...)
+	defs = append(defs, anchorRules...)
+	defs = append(defs, spanRules...)
+	// the comments of the assertion rules and of the whole-span rules: every core in every context
+	var classComments []string
+	for _, d := range append(append([]ruleDef{}, anchorRules...), spanRules...) {
+		for _, core := range d.cores {
+			classComments = append(classComments, inContexts(core)...)
+		}
+	}
 	// calls with several regexps: comment bodies hit by each alternative and by each ordered pair of alternatives
 	var altBody []string
 	for _, d := range fixedAltRules {
@@ -639,7 +785,7 @@ func main() {
 					return true
 				}
 			}
-			for _, b := range append([]string{"// L1lo hum", "/* L2lo\nhum */", "// N1~lo", "// D1:deux", "// D2:ABCDEFGHIJKLMN", "// S1~lo"}, altFixed...) {
+			for _, b := range append(append([]string{"// L1lo hum", "/* L2lo\nhum */", "// N1~lo", "// D1:deux", "// D2:ABCDEFGHIJKLMN", "// S1~lo"}, altFixed...), classComments...) {
 				if re.MatchString(b) {
 					return true
 				}
@@ -725,13 +871,14 @@ func main() {
 		w("\n}\n\n")
 		for k, p := range d.pats {
 			re := regexp.MustCompile(p)
+			asserts, anyEnds := assertionsOf(p)
 			rules = append(rules, ruleSpec{Pat: p, Names: re.SubexpNames(), Groups: ruleguard.VerifRegexpHasCaptureGroups(p), NumSub: re.NumSubexp(),
-				Filter: d.filter, Msg: d.msg, Sugg: d.sugg, At: d.at, Line: altLines[k], Group: group, RFile: rfile, re: re})
+				Filter: d.filter, Msg: d.msg, Sugg: d.sugg, At: d.at, Line: altLines[k], Group: group, RFile: rfile, Asserts: asserts, AnyEnds: anyEnds, re: re})
 		}
 	}
 
 	// ---- target files with comments at known offsets
-	var tbs [4]strings.Builder
+	var tbs [7]strings.Builder
 	var comments []cm
 	cur := 0
 	addc := func(prefix, c, suffix string) {
@@ -854,6 +1001,16 @@ func main() {
 	for _, c := range suggComments {
 		addc("\t", c, "\n")
 	}
+	for i, c := range classComments {
+		switch i % 3 {
+		case 0:
+			addc("\t", c, "\n")
+		case 1:
+			addc("\t_ = \"日本\" ", c, "\n")
+		default:
+			addc("\tx++ ", c, "\n")
+		}
+	}
 	for i, b := range altBody {
 		if i%3 != 2 {
 			altComment(b)
@@ -944,22 +1101,83 @@ func main() {
 	for i := 0; i < 12 && len(altBody) > 0; i++ {
 		altComment(altBody[rng.Intn(len(altBody))])
 	}
+	for i := 0; i < 14; i++ {
+		addc("\t", classComments[rng.Intn(len(classComments))], "\n")
+	}
+	for _, c := range []string{"// see below // AN1 later", "/* pre GL2 mid GL2 post */", "// GL1: drop this before the release", "// left:=right k:=v", "// mode=lo", "// TODO(bb): x"} {
+		addc("\t", c, "\n")
+	}
 	tbs[3].WriteString("}\n")
 	addc("", "/* fam2:a-q-é */", "")
+
+	// file 4: file 3 REWRITTEN WITH THE SAME BYTE LENGTH (same path): every comment sits at the same offset and has the same
+	// length, but the words the rules bind, filter on and interpolate are others; it is written over file 3 and keeps its
+	// modification time -- nothing but the bytes tells the two versions apart.
+	// file 5: the bytes of file 3 again (same path, same length as file 4).
+	{
+		src3 := tbs[3].String()
+		var b4 strings.Builder
+		at := 0
+		var c4, c5 []cm
+		for _, c := range comments {
+			if c.file != 3 {
+				continue
+			}
+			b4.WriteString(src3[at:c.off])
+			nc := sameLen(c.src)
+			if len(nc) != len(c.src) {
+				fmt.Fprintf(os.Stderr, "sameLen changed the length of %q\n", c.src)
+				os.Exit(3)
+			}
+			b4.WriteString(nc)
+			at = c.off + len(c.src)
+			c4 = append(c4, cm{file: 4, off: c.off, src: nc})
+			c5 = append(c5, cm{file: 5, off: c.off, src: c.src})
+		}
+		b4.WriteString(src3[at:])
+		tbs[4].WriteString(b4.String())
+		tbs[5].WriteString(src3)
+		comments = append(comments, c4...)
+		comments = append(comments, c5...)
+	}
+
+	// file 6: a file that is NOT ON DISK (analysed from memory, as an editor or a test harness hands it over): there are no
+	// file bytes to slice, the texts are the parser's
+	cur = 6
+	tbs[6].WriteString("package target\n\nvar inMemory = \"日本\" ")
+	addc("", "// fam2:bb-q-é", "\n")
+	tbs[6].WriteString("func im() {\n")
+	for i := 0; i < 8; i++ {
+		if i%2 == 0 {
+			familyComment()
+		} else {
+			randomComment()
+		}
+	}
+	for i := 0; i < 10; i++ {
+		addc("\t", classComments[rng.Intn(len(classComments))], "\n")
+	}
+	for i := 0; i < 6 && len(altBody) > 0; i++ {
+		altComment(altBody[rng.Intn(len(altBody))])
+	}
+	tbs[6].WriteString("}\n")
+	addc("", "// pre GL2 mid GL2 post", "")
 
 	fset := token.NewFileSet()
 	var targets []*target
 	for i := range tbs {
 		src := []byte(tbs[i].String())
 		path := filepath.Join(*tmp, fmt.Sprintf("c12/f%d/target.go", i))
-		if i == 3 {
+		if i >= 3 && i <= 5 {
 			path = filepath.Join(*tmp, "c12/f2/target.go") // the same path as file 2
 		}
 		if err := os.MkdirAll(filepath.Dir(path), 0o755); err != nil {
 			fmt.Fprintln(os.Stderr, "target:", err)
 			os.Exit(3)
 		}
-		if err := os.WriteFile(path, src, 0o644); err != nil {
+		if i == inMemoryFile {
+			os.Remove(path)
+		} else if err := os.WriteFile(path, src, 0o644); err != nil {
 			fmt.Fprintln(os.Stderr, "target:", err)
 			os.Exit(3)
 		}
@@ -1030,21 +1248,48 @@ func main() {
 		srcs = append(srcs, t.src)
 		bases = append(bases, fset.File(t.file.Pos()).Base())
 	}
-	enc.Encode(map[string]interface{}{"k": "file", "srcs": srcs, "bases": bases, "parser_comments": ncom, "built_comments": len(comments)})
+	orders := map[int][]int{0: {0, 1, 2, 3, 4, 5, 6}, 15: {0, 2, 3, 1, 4, 6, 5}}
+	var pathOf []int
+	for i := range targets {
+		pathOf = append(pathOf, i)
+		for j := 0; j < i; j++ {
+			if targets[j].path == targets[i].path {
+				pathOf[i] = pathOf[j]
+				break
+			}
+		}
+	}
+	enc.Encode(map[string]interface{}{"k": "file", "srcs": srcs, "bases": bases, "parser_comments": ncom, "built_comments": len(comments),
+		"path_of": pathOf, "in_memory": inMemoryFile, "orders": map[string][]int{"0": orders[0], "15": orders[15]}})
 
 	type frep struct {
 		hutil.Report
 		file string
 	}
 	state := ruleguard.NewRunnerState(e) // one runner state for all files, as the analyzer's pool hands out
+	// the HISTORY of one runner state: every run rewrites the file at its path just before (files 2..5 are versions of one path:
+	// another length, the same length with other texts, the first bytes again), adjacent in the first pass, with runs on other
+	// paths in between in the second; a rewritten file keeps the modification time of the first version
+	mtimes := map[string]time.Time{}
 	for _, L := range []int{0, 15} {
-		for fi, t := range targets {
+		prev := -1
+		for step, fi := range orders[L] {
+			t := targets[fi]
 			var reports []frep
-			// the file has these bytes when it is analysed (files 2 and 3 share a path)
-			if err := os.WriteFile(t.path, t.src, 0o644); err != nil {
-				fmt.Fprintln(os.Stderr, "target:", err)
-				os.Exit(3)
+			// the file has these bytes when it is analysed
+			if fi != inMemoryFile {
+				if err := os.WriteFile(t.path, t.src, 0o644); err != nil {
+					fmt.Fprintln(os.Stderr, "target:", err)
+					os.Exit(3)
+				}
+				if mt, ok := mtimes[t.path]; ok {
+					os.Chtimes(t.path, mt, mt)
+				} else if st, err := os.Stat(t.path); err == nil {
+					mtimes[t.path] = st.ModTime()
+				}
 			}
+			before := prev
+			prev = fi
 			pmsg := func() (pmsg string) {
 				defer func() {
 					if r := recover(); r != nil {
@@ -1081,7 +1326,7 @@ func main() {
 				return ""
 			}()
 			if pmsg != "" {
-				enc.Encode(commentObs{K: "comment", L: L, File: fi, Panic: pmsg})
+				enc.Encode(commentObs{K: "comment", L: L, File: fi, Step: step, Prev: before, Panic: pmsg})
 				continue
 			}
 			claimed := make([]bool, len(reports))
@@ -1089,7 +1334,7 @@ func main() {
 				if c.file != fi {
 					continue
 				}
-				o := commentObs{K: "comment", L: L, File: fi, Off: c.off, Src: []byte(c.src), HasCR: strings.Contains(c.src, "\r")}
+				o := commentObs{K: "comment", L: L, File: fi, Step: step, Prev: before, Off: c.off, Src: []byte(c.src), HasCR: strings.Contains(c.src, "\r")}
 				text, ok := texts[key{fi, c.off}]
 				if !ok {
 					o.Panic = "the parser has no comment at this offset"
@@ -1108,6 +1353,30 @@ func main() {
 				for _, r := range rules {
 					ix := r.re.FindStringSubmatchIndex(text)
 					o.Idx = append(o.Idx, ix)
+					// measured: is this comment one where a regexp with assertions would answer differently on a PART of the text --
+					// a search that began at a later position (left cut) or that did not see the end (right cut)?
+					if L == 0 && len(r.Asserts) > 0 {
+						lim := len(text)
+						if ix != nil {
+							lim = ix[0]
+						}
+						for k := 1; k <= lim && k < len(text); k++ {
+							if cut := r.re.FindStringIndex(text[k:]); cut != nil && (ix == nil || cut[0]+k < ix[0]) {
+								o.CutL++
+								break
+							}
+						}
+						from := 0
+						if ix != nil {
+							from = ix[1]
+						}
+						for k := from; k < len(text); k++ {
+							if cut := r.re.FindStringIndex(text[:k]); cut != nil && (ix == nil || cut[0] != ix[0] || cut[1] != ix[1]) {
+								o.CutR++
+								break
+							}
+						}
+					}
 					o.IdxSrc = append(o.IdxSrc, r.re.FindSubmatchIndex([]byte(c.src)))
 					// verdicts a Text.Matches leaf may ask for: the text the model reads for the variable is the file bytes at
 					// offset-of-comment + index-in-Text (which differs from Text[b:e] only when the scanner stripped a \r)
